@@ -3,6 +3,7 @@
 
   python3 harness/seedtest.py confirm <dir> <name>       # e.g. /tmp/mut_out_C02/m1 C02-tee-zip-leak
   python3 harness/seedtest.py run <name> [Cxx ...]        # apply to /repo, run checks, undo
+  python3 harness/seedtest.py run-scratch <name> [Cxx ...] # same in a scratch worktree (VERIF_REPO)
 """
 import json
 import os
@@ -69,25 +70,39 @@ def confirm(src, name):
     return ok
 
 
-def run(name, pids):
+def run(name, pids, scratch=False):
+    """scratch=False: apply to /repo itself and undo afterwards (what the registered commands see);
+    scratch=True: apply in a scratch worktree and point the checks at it with VERIF_REPO (use while something
+    else is running checks against /repo)"""
     dst = os.path.join(VERIF, 'seeded', name)
     meta = json.load(open(os.path.join(dst, 'meta.json')))
     pids = pids or [meta.get('property')]
-    rc, out = sh('git -C /repo status --porcelain')
-    assert out.strip() == '', '/repo is not clean: ' + out
-    rc, out = sh('git -C /repo apply %s' % os.path.join(dst, 'patch.diff'))
+    repo = '/repo'
+    if scratch:
+        repo = '/tmp/seedrun_%d' % os.getpid()
+        sh('git -C /repo worktree remove --force %s' % repo)
+        shutil.rmtree(repo, ignore_errors=True)
+        rc, out = sh('git -C /repo worktree add --detach %s HEAD' % repo)
+        assert rc == 0, out
+    rc, out = sh('git -C %s status --porcelain' % repo)
+    assert out.strip() == '', '%s is not clean: %s' % (repo, out)
+    rc, out = sh('git -C %s apply %s' % (repo, os.path.join(dst, 'patch.diff')))
     assert rc == 0, out
     results = meta.setdefault('checks', {})
     try:
         for pid in pids:
             t0 = time.time()
-            rc, out = sh('./check %s --tier quick' % pid, cwd=VERIF)
+            rc, out = sh('./check %s --tier quick' % pid, cwd=VERIF, env={'VERIF_REPO': repo})
             vio = [l for l in out.split('\n') if l.startswith('VIOLATION')]
             results[pid] = {'exit': rc, 'violation': vio[0] if vio else None, 'wall_s': round(time.time() - t0, 1),
                             'found_failing_input': bool(vio) and 'no-failing-input-found' not in vio[0]}
             print(name, pid, results[pid])
     finally:
-        sh('git -C /repo checkout -- .')
+        if scratch:
+            sh('git -C /repo worktree remove --force %s' % repo)
+            shutil.rmtree(repo, ignore_errors=True)
+        else:
+            sh('git -C /repo checkout -- .')
     json.dump(meta, open(os.path.join(dst, 'meta.json'), 'w'), indent=1)
 
 
@@ -96,3 +111,5 @@ if __name__ == '__main__':
         sys.exit(0 if confirm(sys.argv[2], sys.argv[3]) else 1)
     elif sys.argv[1] == 'run':
         run(sys.argv[2], sys.argv[3:])
+    elif sys.argv[1] == 'run-scratch':
+        run(sys.argv[2], sys.argv[3:], scratch=True)
